@@ -514,6 +514,8 @@ fn lock_scenario() {
 					Ok(db) => {
 						let n = live.fetch_add(1, Ordering::SeqCst) + 1;
 						if n != 1 {
+							// do not run this handle's shutdown next to the other live handle while unwinding
+							std::mem::forget(db);
 							panic!("VIOL C18 two-live-handles: task {t} opened the directory while {} other handle(s) were alive", n - 1);
 						}
 						opened.fetch_add(1, Ordering::SeqCst);
